@@ -94,13 +94,13 @@ struct C14 : Property
 			{
 				op.kind = "ser";
 				static const int sf[] = {0, 1, 2, 2 | 8, 32, 1 | 32, 4, 1 | 4, 2 | 4 | 16};
-				op.a = {sf[r.below(9)], (int64_t)r.below(4), (int64_t)r.range(-2000000, 2000000), (int64_t)r.below(5)};
+				op.a = {sf[r.below(9)], (int64_t)r.below(4), (int64_t)r.range(-2000000, 2000000), (int64_t)r.below(10)};
 				op.data = r.pick(std::vector<std::string>{"[1.5,2.25,{\"d\":0.1,\"e\":-1234567.875}]", "0.5", "[1e300,1e-300,3.0,100.0]", "{\"x\":[0.001,1000.5]}", "[1,2,3.5]"});
 				break;
 			}
 			default:
 				op.kind = "fmt";
-				op.a = {(int64_t)r.below(7), (int64_t)r.below(2)};
+				op.a = {(int64_t)r.below(12), (int64_t)r.below(2)};
 				break;
 			}
 			if (faulted && r.chance(1, 3))
@@ -262,8 +262,9 @@ struct C14 : Property
 				LIB(json_object_array_add(arr, tree));
 				double x = (double)op.arg(2) / 1024.0;
 				LIB(json_object_array_add(arr, json_object_new_double(x)));
-				static const char *nodefmt[5] = {nullptr, "%.3f", "%.0f", "%e", "%.1f"};
-				const char *nf = nodefmt[op.arg(3) % 5];
+				// (flags and field widths included: the fix-up of the decimal separator must not depend on what surrounds the digits)
+				static const char *nodefmt[10] = {nullptr, "%.3f", "%.0f", "%e", "%.1f", "%8.3f", "%+.2f", "% .3f", "%-10.4f|", "%#.0f"};
+				const char *nf = nodefmt[op.arg(3) % 10];
 				struct json_object *dn = LIB(json_object_new_double(x * 3));
 				if (nf)
 					LIBV(json_object_set_serializer(dn, json_object_double_to_json_string, (void *)nf, nullptr));
@@ -298,8 +299,8 @@ struct C14 : Property
 			{
 				// index 6: a format with the ' grouping flag - its OWN output is outside the claim (serializations are not compared
 				// while it is active), but once the format is reset the default must be fully locale independent again
-				static const char *fmts[7] = {nullptr, "%.3f", "%.0f", "%e", "%.17g", "%.2f", "%'.2f"};
-				const char *f = fmts[op.arg(0) % 7];
+				static const char *fmts[12] = {nullptr, "%.3f", "%.0f", "%e", "%.17g", "%.2f", "%'.2f", "%10.4f", "%+.1f", "% .2f", "%-9.3f", "%#.0f"};
+				const char *f = fmts[op.arg(0) % 12];
 				Snapshot before = snap();
 				arm_faults(op, ctx);
 				int rc = LIB(json_c_set_serialization_double_format(f, (op.arg(1) & 1) ? JSON_C_OPTION_THREAD : JSON_C_OPTION_GLOBAL));
